@@ -377,11 +377,31 @@ pub fn sorted_build(input: &Input, dir: &Path) -> Result<Vec<u8>, String> {
     let inputs = sorted.write_files(dir);
     let out = dir.join("sorted.fst");
     let argv = argv_for(&sorted, None, &inputs, &out, dir);
-    let r = catch_unwind(AssertUnwindSafe(|| run_command(&argv)));
-    let res = match r {
-        Ok(Ok(())) => std::fs::read(&out).map_err(|e| format!("{}", e)),
-        Ok(Err(e)) => Err(e),
-        Err(p) => Err(format!("PANIC {}", panic_msg(p))),
+    // The sorted path spawns no threads, but it runs inside a (single-task)
+    // simulated execution all the same: the instrumented sources may touch a
+    // simulated primitive (say, a statistics counter) anywhere.
+    let slot: Arc<Mutex<Option<Result<(), String>>>> = Arc::new(Mutex::new(None));
+    let slot2 = slot.clone();
+    let argv2 = Arc::new(argv);
+    let rec = Arc::new(Mutex::new(Rec::default()));
+    let scheduler = SimScheduler::new(Sched::Explicit(vec![]), rec);
+    let mut config = shuttle::Config::new();
+    config.stack_size = 1 << 20;
+    config.failure_persistence = shuttle::FailurePersistence::None;
+    config.max_steps = shuttle::MaxSteps::FailAfter(STEP_BUDGET);
+    config.silence_warnings = true;
+    let runner = shuttle::Runner::new(scheduler, config);
+    let r = catch_unwind(AssertUnwindSafe(move || {
+        runner.run(move || {
+            let r = run_command(&argv2);
+            *slot2.lock().unwrap() = Some(r);
+        });
+    }));
+    let res = match (r, slot.lock().unwrap().take()) {
+        (Ok(()), Some(Ok(()))) => std::fs::read(&out).map_err(|e| format!("{}", e)),
+        (_, Some(Err(e))) => Err(e),
+        (Err(p), _) => Err(format!("PANIC {}", panic_msg(p))),
+        (Ok(()), None) => Err("the sorted command never returned".to_string()),
     };
     let _ = std::fs::remove_dir_all(dir);
     res
